@@ -73,3 +73,33 @@ def calls_of(relpath, method_name):
             if (isinstance(f, ast.Attribute) and f.attr == method_name) or (isinstance(f, ast.Name) and f.id == method_name):
                 out.add(q.get(id(n), ''))
     return out
+
+
+def calls_outside_lock(relpath, attr, method, lock_attr):
+    """the calls  <x>.attr.method(...)  that are NOT lexically inside a `with <y>.lock_attr:` block of the same function:
+    list of (qualname, line).  (A lock taken by a caller is not seen: callers are listed for inspection.)"""
+    src, tree = extract.parse_file(relpath)
+    q = _qualnames(tree)
+    out = []
+
+    def walk(node, locked):
+        for child in ast.iter_child_nodes(node):
+            now = locked
+            if isinstance(child, (ast.FunctionDef, ast.AsyncFunctionDef, ast.Lambda)):
+                now = False                  # a nested function runs later, not under the enclosing with
+            if isinstance(child, ast.With):
+                if any(isinstance(it.context_expr, ast.Attribute) and it.context_expr.attr == lock_attr for it in child.items):
+                    for it in child.items:
+                        walk(it, locked)
+                    for st in child.body:
+                        walk_stmt(st, True)
+                    continue
+            walk_stmt(child, now)
+
+    def walk_stmt(child, locked):
+        if isinstance(child, ast.Call) and isinstance(child.func, ast.Attribute) and child.func.attr == method \
+                and isinstance(child.func.value, ast.Attribute) and child.func.value.attr == attr and not locked:
+            out.append((q.get(id(child), ''), child.lineno))
+        walk(child, locked)
+    walk(tree, False)
+    return sorted(set(out))
